@@ -45,7 +45,7 @@ COMPONENTS = {
              "ad_afqmc.sampling.sampler.propagate_phaseless(_ad_norot)", "ad_afqmc.driver.afqmc", "jax / XLA CPU"],
     "stub": ["mpi4py.MPI -> SimComm/SimWorld", "wall clock", "stdout"],
 }
-REQUIRED_PROBES = {"quick": ["permuted_steps", "rebatched_steps", "restricted_vs_unrestricted_steps", "driver_pairs", "sampler_pairs", "perm_kind_steps"],
+REQUIRED_PROBES = {"quick": ["permuted_steps", "rebatched_steps", "restricted_vs_unrestricted_steps", "driver_pairs", "sampler_pairs", "perm_kind_steps", "multislater_pair_runs"],
                    "thorough": ["permuted_steps", "rebatched_steps", "restricted_vs_unrestricted_steps", "driver_pairs", "sampler_pairs", "tail_steps", "sr_ops"]}
 
 OPS = ["step", "step", "step", "tail", "qr", "sr", "measure", "permute", "rebatch"]
@@ -58,6 +58,12 @@ def menu_entry(k):
         nelec=r.choice([[1, 1], [2, 2], [2, 2]]), norb=4, nchol=r.choice([2, 3]), n_walkers=nw, dt=r.choice([0.01, 0.05, 0.1]),
         n_batch=r.choice([1, 2]), kind=["steps", "perm", "sampler", "driver", "steps", "perm"][k % 6],
     )
+    if m["kind"] == "steps" and k % 12 == 4:
+        # the same multi-Slater trial measured through its restricted and its unrestricted routines
+        m["trial_kind"] = "multislater"
+        m["nelec"] = r.choice([[1, 1], [2, 2]])
+        m["nchol"] = 2
+        m["n_walkers"] = 4
     if m["kind"] == "perm":
         # permutation / batch-count covariance for the other trials and walker layouts
         m["wt"] = r.choice(["unrestricted", "unrestricted", "restricted"])
@@ -86,7 +92,7 @@ def gen_cfg(seed, index, tier):
     if m["kind"] in ("steps", "perm"):
         ops = []
         nw = m["n_walkers"]
-        for _ in range(rng.randint(8, 30)):
+        for _ in range(rng.randint(8, 30) if m.get("trial_kind") != "multislater" else rng.randint(5, 12)):
             o = rng.choice(OPS)
             if o == "tail":
                 ops.append(["tail", rng.randrange(nw), rng.choice([3.0, 5.0, 8.0])])
@@ -119,9 +125,52 @@ def _spec(cfg, wt, n_batch=None):
                 ham_seed=cfg["ham_seed"], strength=cfg["strength"], mix=cfg["mix"], spin_dep=False)
 
 
+def build_pair_multislater(cfg, n_batch=None):
+    """A and B share ONE multi-Slater trial (random CI vector over the whole sector, closed-shell
+    reference, excitation cut-off = largest rank present): A stores the population as w
+    (restricted routines of the trial), B as [w, w] (unrestricted routines)."""
+    import jax.numpy as jnp
+
+    from ad_afqmc import hamiltonian, pyscf_interface, wavefunctions
+
+    from ..models import fock
+
+    nb = n_batch or cfg["n_batch"]
+    norb, nelec = cfg["norb"], tuple(cfg["nelec"])
+    rs = np.random.RandomState(cfg["ham_seed"] % (2**32 - 1))
+    ham_data = lab.gen_hamiltonian(rs, norb, cfg["nchol"], cfg["strength"], False)
+    sec = fock.Sector(norb, nelec)
+    vec = rs.normal(size=sec.dim) * 0.25
+    closed = [k for k in range(sec.dim) if sec.index_to_occ(k)[0] == sec.index_to_occ(k)[1]]
+    ref = closed[rs.randint(len(closed))]
+    vec[ref] = 1.0
+    order = [ref] + [k for k in range(sec.dim) if k != ref]
+    state = {tuple(map(tuple, sec.index_to_occ(k))): float(vec[k]) for k in order}
+    maxex = 2 * min(nelec[0], norb - nelec[0])
+    Acre, Ades, Bcre, Bdes, coeff, ref_det = pyscf_interface.get_excitations(state=state, max_excitation=maxex)
+    out = []
+    for wt in ("restricted", "unrestricted"):
+        s = lab.System()
+        s.ham = hamiltonian.hamiltonian(norb)
+        s.trial = wavefunctions.multislater(norb, nelec, max_excitation=maxex, n_batch=nb)
+        s.wave_data = {"Acre": Acre, "Ades": Ades, "Bcre": Bcre, "Bdes": Bdes, "coeff": coeff, "ref_det": ref_det}
+        s.wave_data["rdm1"] = jnp.array(s.trial.get_rdm1(s.wave_data))
+        base = "propagator_restricted" if wt == "restricted" else "propagator_unrestricted"
+        s.plain = lab.make_propagator(base, harness=False, dt=cfg["dt"], n_walkers=cfg["n_walkers"], n_batch=nb)
+        s.prop = s.plain
+        s.ham_data_raw = dict(ham_data)
+        hd = s.ham.build_measurement_intermediates(dict(ham_data), s.trial, s.wave_data)
+        s.ham_data = s.ham.build_propagation_intermediates(hd, s.plain, s.trial, s.wave_data)
+        out.append(s)
+    return out[0], out[1]
+
+
 def build_pair(cfg, n_batch=None):
     """A (restricted/RHF) and B (unrestricted/UHF with the same orbitals)."""
     import jax.numpy as jnp
+
+    if cfg.get("trial_kind") == "multislater":
+        return build_pair_multislater(cfg, n_batch)
 
     a = lab.build_system(_spec(cfg, "restricted", n_batch), harness=False)
     b = lab.build_system(_spec(cfg, "unrestricted", n_batch), harness=False)
@@ -231,11 +280,16 @@ def _exec_steps(cfg, ctx):
 
     def sys_p():
         if nb_p not in copies:
-            copies[nb_p] = lab.build_system(_spec(cfg, "restricted", nb_p), harness=False)
+            if cfg.get("trial_kind") == "multislater":
+                copies[nb_p] = build_pair_multislater(cfg, nb_p)[0]
+            else:
+                copies[nb_p] = lab.build_system(_spec(cfg, "restricted", nb_p), harness=False)
             copies[nb_p].wave_data = a.wave_data
             copies[nb_p].ham_data = a.ham_data
         return copies[nb_p]
 
+    if cfg.get("trial_kind") == "multislater":
+        ctx.probe("multislater_pair_runs", 1)
     cmp_ab(ctx, cfg, "init", pa, pb)
     for k, op in enumerate(cfg["ops"]):
         name = op[0]
@@ -280,12 +334,15 @@ def _exec_steps(cfg, ctx):
             ob, fb_, eb = _measure(b, pb)
             op_, fp_, ep = _measure(sys_p(), pp)
             site = "wave_function.calc_overlap/calc_force_bias/calc_energy"
+            # the AD-based multi-Slater trial gets its local energy from a finite difference (eps = 1e-4):
+            # its two storage routes agree only to the finite-difference round-off
+            etol = 1e-5 if cfg.get("trial_kind") == "multislater" else 1e-8
             for nm, x, y in (("overlap", oa, ob), ("force_bias", fa_, fb_), ("energy", ea, eb)):
-                if not _close(x, y, 1e-8, 1e-10):
+                if not _close(x, y, etol if nm == "energy" else 1e-8, 1e-10):
                     _bad(ctx, "lockstep.restricted_unrestricted_measurement_differs", site, cfg, op=k, quantity=nm, a=str(x.tolist())[:300], b=str(y.tolist())[:300])
             idx = np.array(perm)
             for nm, x, y in (("overlap", op_, oa[idx]), ("force_bias", fp_, fa_[idx]), ("energy", ep, ea[idx])):
-                if not _close(x, y, 1e-10, 1e-12):
+                if not _close(x, y, etol if nm == "energy" and etol > 1e-8 else 1e-10, 1e-12):
                     _bad(ctx, "lockstep.measurement_not_permutation_covariant" if perm != sorted(perm) else "lockstep.measurement_depends_on_batch_count",
                          site, cfg, op=k, quantity=nm, perm=perm, n_batch_copy=nb_p)
             rec.append(arr_hash(oa, fa_, ea))
